@@ -1,14 +1,15 @@
 CONSTANTS
   Fids = {0, 1, 2}
+  Sample = 40
   NOFID = 99
   MaxH = 4
-  NameLists <- NL_full
-  Modes = {0, 1, 2, 3, 17, 66}
-  CreateNames = {"x", ".", ".."}
+  NameLists <- NL_quick
+  Modes = {0, 1, 2, 17}
+  CreateNames = {"x", ".."}
   WithFail = TRUE
 SPECIFICATION Spec
 INVARIANTS TypeOK HeldIsBound OneFidPerEntry UnboundIsBlank AfterStopNothingBound
 PROPERTIES ReleaseExactlyOnce UsesOnlyHeld
 VIEW View
-ACTION_CONSTRAINT Emit
+ACTION_CONSTRAINT EmitSampled
 CHECK_DEADLOCK FALSE
